@@ -176,6 +176,12 @@ class ByteDomain(exchange.ExchangeDomain):
             for e in ast.walk(node.value):
                 if isinstance(e, (ast.Name, ast.Subscript)):
                     st = self._save(st, e)
+            if self.frames:
+                # a helper of an exchange function returns: a leftover it holds and does not hand back is gone, and
+                # with it the beginning of the next reply whenever two replies arrive in one piece
+                for k, v in st.d.items():
+                    if isinstance(k, str) and isinstance(v, Chunk) and v.status == "fresh":
+                        self.kills.append((k, node, st, self.fn, "dropped"))
             return st
         return state
 
@@ -224,7 +230,14 @@ def run(chk):
         outs = Interp(dom, f.node, prog).run(Env(init))
         n_src += dom.sources
         seen = set()
-        for name, node, st, where in dom.kills:
+        for kill in dom.kills:
+            name, node, st, where = kill[:4]
+            if len(kill) > 4:
+                key = "%s:drops-leftover:%s" % (where.qualname if where is not None else f.qualname, name)
+                if key not in seen:
+                    seen.add(key)
+                    r1.fail(key, "%s returns while `%s` holds bytes received beyond the reply it was reading (the reader's leftover) without handing them back: when two replies arrive in one piece the second one is lost and the next read blocks or mis-frames" % (where.qualname if where is not None else f.qualname, name), fn=where or f, node=node)
+                continue
             key = "%s:overwrites-unsaved:%s" % (where.qualname if where is not None else f.qualname, name)
             if key in seen:
                 continue
